@@ -192,11 +192,44 @@ func retargeted(w []byte, r *Rng) [][]byte {
 	return out
 }
 
+// extremes: a well-formed encoding in which the two bytes at EVERY offset after the fixed-size key
+// block (and in the first 16 bytes) are in turn set to the largest values a 16-bit field can hold
+// (0xFFFF, 0xFFFE, 0x8000): a length or count field at its maximum, where "+1" wraps and
+// "as a signed number" flips
+func extremes(w []byte) [][]byte {
+	var out [][]byte
+	if len(w) < 4 || len(w) > 4000 {
+		return out
+	}
+	lo := 384
+	if len(w) < 400 {
+		lo = 0
+	}
+	for i := 0; i+2 <= len(w); i++ {
+		if i >= 16 && i < lo {
+			continue
+		}
+		if i > lo+420 {
+			break
+		}
+		for _, v := range []int{0xffff, 0xfffe, 0x8000} {
+			m := cp(w)
+			m[i], m[i+1] = byte(v>>8), byte(v)
+			out = append(out, m)
+		}
+	}
+	return out
+}
+
 func systematicInputs(p *Parser, r *Rng) [][]byte {
 	var out [][]byte
 	if p.Gen != nil {
 		w := p.Gen(r)
 		out = append(out, retargeted(w, r)...)
+		out = append(out, extremes(w)...)
+		if p.MinSizeGuard > 0 && len(w) < p.MinSizeGuard+20 {
+			out = append(out, extremes(cat(w, r.Bytes(p.MinSizeGuard+20-len(w))))...)
+		}
 		if p.MinSizeGuard > 0 && len(w) < p.MinSizeGuard+20 {
 			out = append(out, retargeted(cat(w, r.Bytes(p.MinSizeGuard+20-len(w))), r)...)
 		}
